@@ -149,6 +149,15 @@ pub enum SerializableNthChild {
   },
 }
 
+impl SerializableNthChild {
+  pub(crate) fn of_rule(&self) -> Option<&SerializableRule> {
+    match self {
+      SerializableNthChild::Complex { of_rule, .. } => of_rule.as_deref(),
+      SerializableNthChild::Simple(_) => None,
+    }
+  }
+}
+
 /// Corresponds to the CSS syntax An+B
 /// See https://developer.mozilla.org/en-US/docs/Web/CSS/:nth-child#functional_notation
 struct FunctionalPosition {
@@ -228,6 +237,10 @@ impl<L: Language> NthChild<L> {
       .iter()
       .position(|child| child.node_id() == node.node_id())
   }
+  pub(crate) fn check_cyclic(&self, id: &str) -> bool {
+    self.of_rule.as_ref().is_some_and(|r| r.check_cyclic(id))
+  }
+
   pub fn defined_vars(&self) -> HashSet<&str> {
     if let Some(rule) = &self.of_rule {
       rule.defined_vars()
